@@ -269,6 +269,10 @@ type ServeOpts struct {
 	FailErr     error // error for failed writes
 	KeepKeys    bool
 	Ctx         context.Context // request context (default: background)
+	// ContentLength, if ≥ 0 and HaveContentLength is set, is announced like a
+	// client with a fixed-size body would (Request.ContentLength + header).
+	HaveContentLength bool
+	ContentLength     int64
 }
 
 // Serve calls h.ServeHTTP synchronously with a crafted request.
@@ -301,6 +305,10 @@ func Serve(h http.Handler, method, path string, header http.Header, body io.Read
 	req.Proto = fmt.Sprintf("HTTP/%d.%d", major, map[int]int{1: 1, 2: 0, 3: 0, 0: 0}[major])
 	req.ProtoMajor, req.ProtoMinor = major, map[int]int{1: 1, 2: 0, 3: 0}[major]
 	req.ContentLength = -1
+	if o.HaveContentLength {
+		req.ContentLength = o.ContentLength
+		req.Header.Set("Content-Length", fmt.Sprint(o.ContentLength))
+	}
 	req.RequestURI = path
 	rw := &recorder{header: make(http.Header), rec: rec, failAt: o.FailWriteAt, failErr: o.FailErr}
 	if rw.failErr == nil {
